@@ -118,7 +118,7 @@ func isLenOfParam(p *ssa.Parameter) func(ssa.Value) bool {
 			return false
 		}
 		b, ok := cl.Common().Value.(*ssa.Builtin)
-		return ok && b.Name() == "len" && cl.Common().Args[0] == ssa.Value(p)
+		return ok && b.Name() == "len" && ir.Strip(cl.Common().Args[0]) == ssa.Value(p)
 	}
 }
 
@@ -185,7 +185,7 @@ func runC07(c *core.Ctx) {
 	if fn := c.Fn(pkM, "MerkleVerifier.calculate_root_hash_from_audit_path"); fn != nil && hc != nil {
 		ap := paramByName(fn, "audit_path")
 		reads := indexReads(fn, ap)
-		c.Floor("audit_path reads", len(reads), 2)
+		c.Floor("audit_path reads", len(reads), 1)
 		for i, ia := range reads {
 			idx := ia.Index
 			eng.Dominates(c, "C07.inclusion", fn, relGuard(sprintf("index #%d < len(audit_path)", i+1), func(v ssa.Value) bool { return v == idx }, isLenOfParam(ap), token.LSS),
@@ -254,10 +254,14 @@ func runC07(c *core.Ctx) {
 						continue
 					}
 					q, ok := e.(*ssa.BinOp)
-					if !ok || q.Op != token.QUO || q.X != ssa.Value(p) {
+					if !ok || (q.Op != token.QUO && q.Op != token.SHR) || q.X != ssa.Value(p) {
 						return false
 					}
-					if k, okk := ir.ConstInt(q.Y); !okk || k != 2 {
+					want := int64(2) // x / 2
+					if q.Op == token.SHR {
+						want = 1 // x >> 1
+					}
+					if k, okk := ir.ConstInt(q.Y); !okk || k != want {
 						return false
 					}
 				}
@@ -286,22 +290,11 @@ func runC07(c *core.Ctx) {
 				continue
 			}
 			odd := cmpGuard("node_index % 2 == 1", func(b *ssa.BinOp) (bool, bool) {
-				rem, ok := b.X.(*ssa.BinOp)
-				if !ok || rem.Op != token.REM || (nodePhi != nil && rem.X != ssa.Value(nodePhi)) {
+				subj, oddWhenTrue, ok := parityTest(b)
+				if !ok || (nodePhi != nil && subj != ssa.Value(nodePhi)) {
 					return false, false
 				}
-				k2, ok2 := ir.ConstInt(rem.Y)
-				k1, ok1 := ir.ConstInt(b.Y)
-				if !ok1 || !ok2 || k2 != 2 || k1 != 1 {
-					return false, false
-				}
-				switch b.Op {
-				case token.EQL:
-					return true, sibLeft
-				case token.NEQ:
-					return true, !sibLeft
-				}
-				return false, false
+				return true, oddWhenTrue == sibLeft
 			})
 			side := "right (node is a left child)"
 			if sibLeft {
@@ -313,13 +306,21 @@ func runC07(c *core.Ctx) {
 				eng.Dominates(c, "C07.inclusion", fn, relGuard("node_index < last_node", func(v ssa.Value) bool { return v == ssa.Value(nodePhi) }, func(v ssa.Value) bool { return v == ssa.Value(lastPhi) }, token.LSS),
 					[]ir.Sink{{Instr: ci, Note: "right sibling"}}, "right sibling consumed only when one exists", nil)
 			}
-			// pos+1 in the same block
+			// pos advances by exactly one on the iterations that consume this sibling
 			inc := 0
-			for _, in := range ci.Block().Instrs {
-				if b, ok := in.(*ssa.BinOp); ok && b.Op == token.ADD && posPhi != nil && b.X == ssa.Value(posPhi) {
-					if k, okk := ir.ConstInt(b.Y); okk && k == 1 {
-						inc++
+			if loopIf != nil && posPhi != nil {
+				var incs []ssa.Instruction
+				for _, bb := range fn.Blocks {
+					for _, in := range bb.Instrs {
+						if b, ok := in.(*ssa.BinOp); ok && b.Op == token.ADD && b.X == ssa.Value(posPhi) {
+							if k, okk := ir.ConstInt(b.Y); okk && k == 1 {
+								incs = append(incs, b)
+							}
+						}
 					}
+				}
+				if pairedOnIteration(fn, loopIf, ci, incs) {
+					inc = 1
 				}
 			}
 			c.Decide(inc == 1, "C07.inclusion", fn, "pos advances by one with the sibling on the "+side, c.P.Rel(ci.Pos()), "")
@@ -330,7 +331,7 @@ func runC07(c *core.Ctx) {
 	if fn := c.Fn(pkM, "MerkleVerifier.VerifyConsistency"); fn != nil {
 		pp := paramByName(fn, "proof")
 		reads := indexReads(fn, pp)
-		c.Floor("proof reads in VerifyConsistency", len(reads), 4)
+		c.Floor("proof reads in VerifyConsistency", len(reads), 2)
 		for i, ia := range reads {
 			idx := ia.Index
 			eng.Dominates(c, "C07.consistency", fn, relGuard(sprintf("index #%d < len(proof)", i+1), func(v ssa.Value) bool { return v == idx }, isLenOfParam(pp), token.LSS),
@@ -420,8 +421,35 @@ func runC07(c *core.Ctx) {
 		if al, isAl := foldAlloc.(*ssa.Alloc); isAl && al.Referrers() != nil {
 			for _, r := range *al.Referrers() {
 				if st, isSt := r.(*ssa.Store); isSt {
-					cl, _ := ir.CallOf(st.Val)
-					if cl == nil || !(ir.CalleeIs(cl, hl) || ir.CalleeIs(cl, hch)) {
+					// HashLeaf / HashChildren results, possibly through a helper all of whose returns are
+					var isFoldOp func(v ssa.Value, depth int) bool
+					isFoldOp = func(v ssa.Value, depth int) bool {
+						cl, idx := ir.CallOf(v)
+						if cl == nil {
+							return false
+						}
+						if ir.CalleeIs(cl, hl) || ir.CalleeIs(cl, hch) {
+							return true
+						}
+						h := cl.Common().StaticCallee()
+						if depth >= 2 || h == nil || len(h.Blocks) == 0 || h.Pkg != fn.Pkg {
+							return false
+						}
+						if idx < 0 {
+							idx = 0
+						}
+						n := 0
+						for _, hb := range h.Blocks {
+							if ret, isRet := hb.Instrs[len(hb.Instrs)-1].(*ssa.Return); isRet && idx < len(ret.Results) {
+								if !isFoldOp(ret.Results[idx], depth+1) {
+									return false
+								}
+								n++
+							}
+						}
+						return n > 0
+					}
+					if !isFoldOp(st.Val, 0) {
 						okFold = false
 					}
 				}
@@ -458,18 +486,27 @@ func runC07(c *core.Ctx) {
 				return isCl && ir.CalleeObj(cl) != nil && ir.CalleeObj(cl).Name() == "NextHash"
 			}
 			n := 0
-			for _, ci := range ir.CallsTo(fn, hch) {
-				a := ci.Common().Args
-				n++
-				switch {
-				case isSibling(a[0]) && !isSibling(a[1]):
-					eng.Dominates(c, "C07.path-proof", fn, relGuard("flag == LEFT", func(v ssa.Value) bool { return v == flagV }, isConstInt(kl), token.EQL), []ir.Sink{{Instr: ci, Note: "sibling on the left"}}, "sibling placed on the left", nil)
-				case isSibling(a[1]) && !isSibling(a[0]):
-					eng.Dominates(c, "C07.path-proof", fn, relGuard("flag == RIGHT", func(v ssa.Value) bool { return v == flagV }, isConstInt(kr), token.EQL), []ir.Sink{{Instr: ci, Note: "sibling on the right"}}, "sibling placed on the right", nil)
-				default:
-					c.Violate("C07.path-proof", fn, "HashChildren combines the running hash with exactly one decoded sibling", c.P.Rel(ci.Pos()), "")
+			// the combine step may sit in a small same-package helper handed flag, sibling and fold
+			hosts, releaseHosts := hostsWithHelpers(fn)
+			isFlag := func(v ssa.Value) bool { return v == flagV || ir.Strip(v) == flagV }
+			for _, host := range hosts {
+				if host != fn {
+					c.Attribute(host, fn)
+				}
+				for _, ci := range ir.CallsTo(host, hch) {
+					a := ci.Common().Args
+					n++
+					switch {
+					case isSibling(a[0]) && !isSibling(a[1]):
+						eng.Dominates(c, "C07.path-proof", host, relGuard("flag == LEFT", isFlag, isConstInt(kl), token.EQL), []ir.Sink{{Instr: ci, Note: "sibling on the left"}}, "sibling placed on the left", nil)
+					case isSibling(a[1]) && !isSibling(a[0]):
+						eng.Dominates(c, "C07.path-proof", host, relGuard("flag == RIGHT", isFlag, isConstInt(kr), token.EQL), []ir.Sink{{Instr: ci, Note: "sibling on the right"}}, "sibling placed on the right", nil)
+					default:
+						c.Violate("C07.path-proof", host, "HashChildren combines the running hash with exactly one decoded sibling", c.P.Rel(ci.Pos()), "")
+					}
 				}
 			}
+			releaseHosts()
 			c.Floor("HashChildren calls in MerkleProve", n, 2)
 		}
 		// reads under !eof
@@ -515,4 +552,69 @@ func quietDominates(fn *ssa.Function, g eng.NamedGuard, s ir.Sink) bool {
 	}
 	r := ir.NewReach(fn).CutEdges(pass).Run(nil)
 	return !r.SinkReachable(s)
+}
+
+// parityTest decomposes a test of the lowest bit: x%2 == 1, x%2 != 0, x&1 == 1,
+// x&1 != 0 and their negations.  oddWhenTrue: the comparison is true exactly
+// when x is odd.
+func parityTest(b *ssa.BinOp) (subject ssa.Value, oddWhenTrue bool, ok bool) {
+	if b.Op != token.EQL && b.Op != token.NEQ {
+		return nil, false, false
+	}
+	low, isB := b.X.(*ssa.BinOp)
+	if !isB {
+		return nil, false, false
+	}
+	k, okk := ir.ConstInt(low.Y)
+	switch {
+	case low.Op == token.REM && okk && k == 2:
+	case low.Op == token.AND && okk && k == 1:
+	default:
+		return nil, false, false
+	}
+	c, okc := ir.ConstInt(b.Y)
+	if !okc || (c != 0 && c != 1) {
+		return nil, false, false
+	}
+	return low.X, (b.Op == token.EQL) == (c == 1), true
+}
+
+// pairedOnIteration: within one iteration of the loop whose header ends in
+// loopIf, every path that executes `use` executes exactly one of `incs`, and no
+// path executes two of them.
+func pairedOnIteration(fn *ssa.Function, loopIf *ssa.If, use ssa.Instruction, incs []ssa.Instruction) bool {
+	if len(incs) == 0 {
+		return false
+	}
+	body := loopIf.Block().Succs[0]
+	// (1) no iteration path passes `use` without an increment: reach `use` from the body start
+	// with increments as barriers, then the next header test from `use` with the same barriers
+	r1 := ir.NewReach(fn)
+	for _, i := range incs {
+		r1.Barrier[i] = true
+	}
+	r1.Barrier[loopIf] = true
+	r1.RunFromBlock(body)
+	if r1.Instr(use) {
+		r2 := ir.NewReach(fn)
+		for _, i := range incs {
+			r2.Barrier[i] = true
+		}
+		r2.Run(use)
+		if r2.Instr(loopIf) {
+			return false
+		}
+	}
+	// (2) at most one increment per iteration
+	for _, i := range incs {
+		r3 := ir.NewReach(fn)
+		r3.Barrier[loopIf] = true
+		r3.Run(i)
+		for _, j := range incs {
+			if r3.Instr(j) {
+				return false
+			}
+		}
+	}
+	return true
 }
